@@ -289,6 +289,8 @@ def mentions_var(t, v):
 
 def check(F, run, tier):
     S = Summaries(F)
+    from ..rules_archive import discarded_exception_obligations
+    discarded_exception_obligations(F, S, run)
     # a failed or short file read must not leave the shared stream failed: later seeks and reads on the same reader would be ignored
     from ..rules_archive import r_fstream
     for _nm in ("ReadImplementation", "ReadPartial"):
